@@ -189,7 +189,7 @@ def run_sequence(ctx, FST, rnd, weights, grammar=False, nsteps=30):
     for i in range(nsteps):
         if ctx.out_of_time():
             break
-        step = edits.gen_step(rnd, root, donors, weights)
+        step = edits.gen_step(rnd, root, donors, weights, with_par='redundant')
         if step is None:
             break
         before = root.src
